@@ -1830,9 +1830,17 @@ func generatePrefixStringTemplate(scope *parser.Scope) string {
 	if len(scope.Prefix.Variables) == 0 {
 		return template
 	}
+	// The last prefix variable is directly followed by the topic delimiter.
+	// If that starts with an identifier character, `$name` followed by it
+	// would name a different (undefined) variable: use `${name}` then.
+	interpolation := "$%s"
+	if d := globals.TopicDelimiter; d != "" && (d[0] == '_' || d[0] == '$' ||
+		(d[0] >= '0' && d[0] <= '9') || (d[0] >= 'a' && d[0] <= 'z') || (d[0] >= 'A' && d[0] <= 'Z')) {
+		interpolation = "${%s}"
+	}
 	vars := make([]interface{}, len(scope.Prefix.Variables))
 	for i, variable := range scope.Prefix.Variables {
-		vars[i] = fmt.Sprintf("$%s", variable)
+		vars[i] = fmt.Sprintf(interpolation, variable)
 	}
 	template = fmt.Sprintf(template, vars...)
 	return template
